@@ -156,8 +156,17 @@ def elems(inst: dict) -> List[str]:
 # per-module local semantics
 
 
-def py_index(bits: list, index):
-    """Python sequence semantics for an int index or a [start, stop, step] triple."""
+def wleaf(k: int) -> str:
+    """Leaf cell with a single port `p` of width k (registered on demand)."""
+    name = f"W{k}"
+    if name not in LEAVES:
+        LEAVES[name] = {"kind": "ext", "ports": [("p", k)]}
+    return name
+
+
+def py_index(bits: list, index, strict: bool = True):
+    """Python sequence semantics for an int index or a [start, stop, step] triple.
+    strict: also reject explicit slice bounds beyond [-w, w] (the library may reject those)."""
     if isinstance(index, int):
         if not (-len(bits) <= index < len(bits)):
             raise Invalid("index-out-of-range", f"index {index} into width {len(bits)}")
@@ -166,7 +175,7 @@ def py_index(bits: list, index):
     if step == 0:
         raise Invalid("index-out-of-range", "zero step")
     for b in (start, stop):
-        if b is not None and not (-len(bits) <= b <= len(bits)):
+        if strict and b is not None and not (-len(bits) <= b <= len(bits)):
             raise Invalid("index-out-of-range", f"bound {b} beyond [-w, w] of width {len(bits)}")
     sel = bits[slice(start, stop, step)]
     if not sel:
@@ -263,7 +272,7 @@ class Local:
         if k == "sig":
             return self.sigbits(e[1])
         if k == "slice":
-            return py_index(self.bits(e[1]), e[2])
+            return py_index(self.bits(e[1]), e[2], strict=not self.design.get("lenient_bounds", False))
         if k == "cat":
             if len(e) < 2:
                 raise Invalid("index-empty", "empty concatenation")
